@@ -445,10 +445,11 @@ class CphotAng:
 
         athetaj = jjstep[:, 1:] - 0.5
         athetaj = np.arctan2(athetaj, DistStep[:, None], dtype=self.dtype)
-        athetaj = 2.0 * (1.0 - np.cos(athetaj, dtype=self.dtype))
+        # 2 (1 - cos x) == 4 sin^2(x / 2): the half-angle form does not cancel in float32
+        athetaj = 4.0 * np.sin(0.5 * athetaj, dtype=self.dtype) ** 2
 
         sthetaj = np.arctan2(jjstep, DistStep[:, None], dtype=self.dtype)
-        sthetaj = 2.0 * (1.0 - np.cos(sthetaj, dtype=self.dtype))
+        sthetaj = 4.0 * np.sin(0.5 * sthetaj, dtype=self.dtype) ** 2
 
         # c     Calc ang spread ala Hillas
         # plus 3 to convert to MeV and minus 2 to end the integral early (3-2=1)
